@@ -14,7 +14,7 @@ sys.path.insert(0, str(Path(__file__).resolve().parent))
 import c11_crawler  # noqa: E402
 
 
-def registry_of(system) -> dict:
+def registry_of(system, rec=None) -> dict:
     from pydoctor import model
     from pydoctor.templatewriter import summary
     order = []
@@ -89,9 +89,22 @@ def registry_of(system) -> dict:
         d = {'name': o.name, 'full': o.fullName(), 'parent': seen[id(o.parent)] if o.parent is not None else None,
              'contents': [seen[id(c)] for c in o.contents.values()], 'cls': k,
              'own': o.documentation_location is model.DocLocation.OWN_PAGE,
-             'priv': o.privacyClass.name, 'kindnone': o.kind is None,
+             'priv': o.privacyClass.name, 'rawpriv': o.system.privacyClass(o).name, 'kindnone': o.kind is None,
              'doc': bool(summary.hasdocstring(o)), 'url': o.url, 'visible': bool(o.isVisible),
              'module': seen.get(id(o.parentMod)) if getattr(o, 'parentMod', None) is not None else None}
+        # docstring cross references as the real linker resolved them (the model's oracle input)
+        try:
+            from pydoctor import epydoc2stan as _e2s
+            src = _e2s.ensure_parsed_docstring(o)
+        except Exception:
+            src = None
+        d['docsource'] = seen.get(id(src)) if src is not None else None
+        for key, kind in (('xrefs', 'doc'), ('sumxrefs', 'sum'), ('annxrefs', 'ann')):
+            lst = []
+            for t in (rec or {}).get(kind, {}).get(id(o), []):
+                if id(t) in seen and seen[id(t)] not in lst:
+                    lst.append(seen[id(t)])
+            d[key] = lst
         if isinstance(o, model.Class):
             d['mro'] = [seen[id(c)] for c in o.mro()]
             d['subclasses'] = [seen[id(c)] for c in o.subclasses]
@@ -115,6 +128,44 @@ def run_case(case: dict) -> dict:
     def make(system):  # type: ignore
         captured.append(system)
         return orig_make(system)
+    from pydoctor import epydoc2stan, linker
+    rec = {'doc': {}, 'sum': {}, 'ann': {}}
+    stack = []
+    keep_alive = []
+    orig = (epydoc2stan.format_docstring, epydoc2stan.format_summary, epydoc2stan.format_constant_value, linker.taglink)
+
+    def wrap(fn, kind):
+        def w(obj, *a, **k):
+            stack.append((kind, obj))
+            try:
+                return fn(obj, *a, **k)
+            finally:
+                stack.pop()
+        return w
+
+    def tl(o, page_url, label=None):
+        if stack:
+            kind, obj = stack[-1]
+            if kind == 'ann':
+                # a type taken from an annotation: rendered in the field table only if the parameter is documented
+                below = [x for x in stack if x[0] != 'ann']
+                if below:
+                    keep_alive.append(below[-1][1])
+                    rec['ann'].setdefault(id(below[-1][1]), []).append(o)
+            else:
+                keep_alive.append(obj)
+                rec[kind].setdefault(id(obj), []).append(o)
+        return orig[3](o, page_url, label)
+    orig_ann = (linker._AnnotationLinker.link_to, linker._AnnotationLinker.link_xref)
+
+    def wrap_ann(fn):
+        def w(self, *a, **k):
+            stack.append(('ann', None))
+            try:
+                return fn(self, *a, **k)
+            finally:
+                stack.pop()
+        return w
     try:
         if 'realtree' in case:
             roots = [case['realtree']]
@@ -129,6 +180,12 @@ def run_case(case: dict) -> dict:
         args = ['--project-name=proj', '--html-output=%s' % out, '--make-html', '--make-intersphinx', '-q', '-q'] \
             + list(case.get('args', [])) + roots
         driver.make = make
+        epydoc2stan.format_docstring = wrap(orig[0], 'doc')
+        epydoc2stan.format_summary = wrap(orig[1], 'sum')
+        epydoc2stan.format_constant_value = wrap(orig[2], 'doc')
+        linker.taglink = tl
+        linker._AnnotationLinker.link_to = wrap_ann(orig_ann[0])
+        linker._AnnotationLinker.link_xref = wrap_ann(orig_ann[1])
         buf = io.StringIO()
         try:
             with contextlib.redirect_stdout(buf), contextlib.redirect_stderr(buf):
@@ -139,9 +196,11 @@ def run_case(case: dict) -> dict:
             return {'error': 'exception escaped driver.main:\n' + traceback.format_exc()[-3000:]}
         finally:
             driver.make = orig_make
+            (epydoc2stan.format_docstring, epydoc2stan.format_summary, epydoc2stan.format_constant_value, linker.taglink) = orig
+            linker._AnnotationLinker.link_to, linker._AnnotationLinker.link_xref = orig_ann
         if not captured:
             return {'error': 'driver.make was not reached: ' + buf.getvalue()[-800:]}
-        reg = registry_of(captured[0])
+        reg = registry_of(captured[0], rec)
         cr = c11_crawler.crawl(out)
         return {'registry': reg, 'crawl': cr, 'exit': rc}
     finally:
